@@ -21,7 +21,7 @@ import sys
 import time
 
 VERIF = os.path.dirname(os.path.dirname(os.path.abspath(__file__)))
-REPO = os.environ.get("VERIF_REPO", "/repo")
+REPO = os.environ.get("VERIF_REPO", os.path.join(os.path.dirname(VERIF), "repo"))
 COQ = os.path.join(VERIF, "coq")
 WORK = os.path.join(VERIF, ".work")
 HARNESS = os.path.join(VERIF, "harness")
@@ -97,7 +97,28 @@ def sh(cmd, timeout=1200, cwd=None, env=None, input=None):
 # Rocq side
 # --------------------------------------------------------------------------------------
 
+COQPROJECT_HEAD = """-Q . RN
+-arg -w -arg -notation-overridden,-deprecated-hint-without-locality,-deprecated-instance-without-locality,-ambiguous-paths
+"""
+
+
+def gen_coqproject():
+    """_CoqProject lists every .v file under coq/ (sorted); rewritten only when the set changes."""
+    files = []
+    for root, dirs, fs in os.walk(COQ):
+        dirs.sort()
+        for fn in sorted(fs):
+            if fn.endswith(".v"):
+                files.append(os.path.relpath(os.path.join(root, fn), COQ))
+    text = COQPROJECT_HEAD + "\n".join(sorted(files)) + "\n"
+    cp = os.path.join(COQ, "_CoqProject")
+    if not os.path.exists(cp) or open(cp).read() != text:
+        with open(cp, "w") as f:
+            f.write(text)
+
+
 def coq_makefile():
+    gen_coqproject()
     mk = os.path.join(COQ, "Makefile")
     cp = os.path.join(COQ, "_CoqProject")
     if (not os.path.exists(mk)) or os.path.getmtime(mk) < os.path.getmtime(cp):
